@@ -20,6 +20,7 @@ class RuleCtx:
         self.cname = cname
         self.fmt_fns = fmt_fns   # dict name -> generated fn text (shared per unit)
         self.log = log
+        self.inherent = False    # R-display: a trait method emitted as an inherent method
 
     def note(self, rule, before, after):
         self.log.append({'rule': rule, 'contract': self.cname,
@@ -82,11 +83,15 @@ def _parse_format_literal(lit):
             else:
                 j = s.index('}', i)
                 spec = s[i + 1:j]
+                kind = 'arg'
+                if spec.endswith(':?'):
+                    # Debug rendering (only of field-less enums: the declared type must be a `T?` pseudo-type of FMT_TYPES)
+                    kind, spec = 'dbg', spec[:-2]
                 if ':' in spec:
                     raise RuleError(f'format spec `{{{spec}}}` not supported')
                 if cur:
                     out.append(('lit', cur)); cur = ''
-                out.append(('arg', spec if spec else None))
+                out.append((kind, spec if spec else None))
                 i = j + 1
         elif c == '}':
             if s[i + 1:i + 2] == '}':
@@ -122,6 +127,11 @@ FMT_TYPES = {
     # any primitive integer type (the unit must declare the trait DecFmt): keeps a change of the integer type within reach
     'int': ('impl DecFmt', '{e}', 'dec_digits_int({a}.dec_view())'),
     'i32': ('i32', '{e}', 'dec_digits_int({a} as int)'),
+    # `{x:?}` of a field-less enum with #[derive(Debug)]: the variant identifier (table generated from the enum by //@dbgtable);
+    # the expression is already a reference (a binding of `match self`)
+    'UnaryOp?': ('&UnaryOp', '{e}', 'dbg_UnaryOp(*{a})'),
+    'BinaryOp?': ('&BinaryOp', '{e}', 'dbg_BinaryOp(*{a})'),
+    'strref': ('&str', '{e}', '{a}@'),
 }
 
 
@@ -146,7 +156,7 @@ def rule_fmtval(ctx, sig, body, arg):
     exprs = []
     k = 0
     for kind, v in pieces:
-        if kind == 'arg':
+        if kind in ('arg', 'dbg'):
             if v is None:
                 if k >= len(explicit):
                     raise RuleError('not enough positional format arguments')
@@ -165,6 +175,8 @@ def rule_fmtval(ctx, sig, body, arg):
             spec.append(_rust_str(v) + '@')
         else:
             ty = types[ai]
+            if (kind == 'dbg') != ty.endswith('?'):
+                raise RuleError(f'fmtval: argument {ai} of {lit} is rendered with {"Debug" if kind == "dbg" else "Display"}, declared type {ty}')
             if ty not in FMT_TYPES:
                 raise RuleError(f'fmtval: no Display model for type {ty}')
             pty, how, rend = FMT_TYPES[ty]
@@ -183,6 +195,34 @@ def rule_fmtval(ctx, sig, body, arg):
     new = f'{fname}({", ".join(passes)})'
     ctx.note('R-fmt-val', body[start:end], new + '   // ensures r@ == ' + ens)
     return sig, body[:start] + new + body[end:]
+
+
+def rule_display(ctx, sig, body, arg):
+    """R-display: `fn fmt(&self, f: &mut fmt::Formatter) -> fmt::Result` of an `impl fmt::Display for T` is verified as an inherent
+    method over a text sink: the Formatter becomes `FmtSink` (a String that `put` appends to), `write!(f, LIT, args)` becomes
+    `f.put(format!(LIT, args))` (std: write! appends the formatted text to the formatter's output and returns its Result)."""
+    sig2 = re.sub(r'&\s*mut\s+(?:std\s*::\s*)?(?:fmt\s*::\s*)?Formatter(?:\s*<\s*\'_\s*>)?', '&mut FmtSink', sig)
+    sig2 = re.sub(r'->\s*(?:std\s*::\s*)?fmt\s*::\s*Result', '-> Result<(), std::fmt::Error>', sig2)
+    if sig2 == sig or 'FmtSink' not in sig2 or 'std::fmt::Error' not in sig2:
+        raise RuleError('signature is not `fn fmt(&self, f: &mut fmt::Formatter) -> fmt::Result`')
+    ctx.note('R-display', sig, sig2)
+    n = 0
+    while True:
+        calls = _macro_calls(body, 'write')
+        if not calls:
+            break
+        start, end, inner = calls[0]
+        args = _split_top_commas(inner)
+        if len(args) < 2 or args[0].strip() != 'f':
+            raise RuleError(f'write!({inner}) does not write to the formatter `f`')
+        new = 'f.put(format!(' + ', '.join(args[1:]) + '))'
+        ctx.note('R-display', body[start:end], new)
+        body = body[:start] + new + body[end:]
+        n += 1
+    if n == 0:
+        raise RuleError('no write! in the body')
+    ctx.inherent = True
+    return sig2, body
 
 
 def _lit_id(lit):
